@@ -6,6 +6,7 @@ mod prng {
     pub use vmon::prng::*;
 }
 mod k28;
+mod k35;
 mod c26;
 mod c27;
 mod c28;
